@@ -41,6 +41,8 @@ def gen_cases(ctx):
             bv = -2.5
         if oc in (5, 6, 7, 8, 9) and rng.random() < 0.3:
             bv = a[2]
+        if oc == 4 and a[2] != 0.0 and rng.random() < 0.25:
+            bv = a[2] * rng.choice([1.0, -1.0])            # remainder at EQUAL magnitudes (quotient exactly +-1)
         b = c03.mk(rng, kind, lb, re=bv)
         p = 1 if (la == lb and la and rng.random() < 0.5) else 0
         cases.append(("bin", kind, oc, c03.enc(kind, oc, p, a, b), "%s %s %s, values %r, %r" % ("Dual" if kind == 1 else "Dual2", BIN[oc], "same kind", a[2], b[2])))
@@ -52,6 +54,8 @@ def gen_cases(ctx):
         f = val(rng)
         if oc == 5 and rng.random() < 0.5:
             f = a[2]
+        if oc == 4 and a[2] != 0.0 and rng.random() < 0.25:
+            f = a[2] * rng.choice([1.0, -1.0])
         if (oc in (3, 4)) and ((side == 0 and f == 0.0) or (side == 1 and a[2] == 0.0)):
             continue
         cases.append(("mix", kind, oc, [4, kind, oc, side] + dg.enc_number(a)[1:] + dg.enc_f(f),
